@@ -1,7 +1,7 @@
 #!/bin/sh
-# tools/seedall.sh <patch.diff> : runs EVERY claimed check against the patched worktree, prints only failures
+# tools/seedall.sh <patch.diff> : applies the patch to a throw-away worktree of /repo (never to
+# /repo itself) and runs EVERY rule once against it (pseudo-property ALL); prints only alarms.
 patch="$1"
-ids=$(python3 -c "import json;print(' '.join(c['property_id'] for c in json.load(open('/verif/MANIFEST.json'))['checks']))")
 wt=$(mktemp -d /tmp/seedwt.XXXXXX)
 git -C /repo worktree add --detach "$wt" HEAD >/dev/null 2>&1 || { echo "worktree failed"; exit 2; }
 if ! git -C "$wt" apply "$patch" 2>/dev/null; then
@@ -9,10 +9,7 @@ if ! git -C "$wt" apply "$patch" 2>/dev/null; then
     echo "PATCH DOES NOT APPLY"; git -C /repo worktree remove --force "$wt"; exit 2
   fi
 fi
-for id in $ids; do
-  ( ev=$(mktemp -d /tmp/seedev.XXXXXX); cp /verif/known_findings.json "$ev"/
-    out=$(VERIF_REPO="$wt" VERIF_DIR="$ev" /verif/bin/verifsa check "$id" 2>&1); r=$?
-    if [ $r -ne 0 ]; then echo "== $id exit=$r"; echo "$out" | grep -E "^\S+: \[[A-Z0-9a-z]+\] |CHECKER-FAILURE" | sed "s#$wt/##g" | cut -c1-330; fi
-    rm -rf "$ev" ) &
-done; wait
-git -C /repo worktree remove --force "$wt"
+ev=$(mktemp -d /tmp/seedev.XXXXXX); cp /verif/known_findings.json "$ev"/
+out=$(VERIF_REPO="$wt" VERIF_DIR="$ev" /verif/bin/verifsa check ALL 2>&1); r=$?
+if [ $r -ne 0 ]; then echo "== exit=$r"; echo "$out" | grep -E "^\S+: \[[A-Z0-9a-z]+\] |CHECKER-FAILURE" | sed "s#$wt/##g" | cut -c1-330; fi
+rm -rf "$ev"; git -C /repo worktree remove --force "$wt"
